@@ -68,7 +68,7 @@ def ident_of(name, kind):
 
 @st.composite
 def cases(draw, switches):
-    nv = draw(st.integers(2, 7))
+    nv = draw(st.integers(2, 7)) if draw(st.integers(0, 5)) else draw(st.integers(10, 14))  # now and then more than nine declared names
     # (name, kind) pairs are unique, names are not: AA, AA$, AA() and AA$() are four different variables
     pairs = draw(st.lists(st.tuples(st.sampled_from(NAMES[:8] if draw(st.booleans()) else NAMES), st.sampled_from(["num", "str", "arr", "sarr", "arr", "sarr"])),
                           min_size=nv, max_size=nv, unique=True))
@@ -137,6 +137,10 @@ def cases(draw, switches):
             v["pos"] = v["pos"] + "+top"
         vars_.append(v)
     # a statement that needs string temporaries
+    if draw(st.integers(0, 5)) == 0:
+        # ten or more string temporaries in one statement (tmp_10$ ...)
+        k_ = draw(st.integers(10, 14))
+        body.append(draw(st.sampled_from(["PRINT " + ";".join(["ZN"] * k_), "ZS$=" + "+".join(["STR$(ZN)"] * k_), "PRINT " + ";".join(["HEX$(%d)" % i for i in range(k_)])])))
     if draw(st.booleans()):
         body.append("PRINT STR$(ZN);ZN")
     if draw(st.booleans()):
